@@ -1,29 +1,52 @@
 #!/usr/bin/env python3
-"""benigncheck.py <dir-with-patch.diff>...: apply a behaviour-preserving refactoring to a scratch copy of /repo and run
+"""benigncheck.py [--jobs=N] <dir-with-patch.diff>...: apply a behaviour-preserving refactoring to a scratch copy of /repo and run
 every property's quick check; any VIOLATION is a false alarm to be triaged."""
-import json, os, re, shutil, subprocess, sys, tempfile
+import json, os, re, shutil, subprocess, sys, tempfile, threading
+from multiprocessing.pool import ThreadPool
 V = os.path.dirname(os.path.dirname(os.path.abspath(__file__)))
 props = [json.loads(l)["id"] for l in open(os.path.join(V, "properties.jsonl"))]
-for d in sys.argv[1:]:
+jobs = 1
+dirs = []
+for a in sys.argv[1:]:
+    if a.startswith("--jobs="):
+        jobs = int(a.split("=")[1])
+    else:
+        dirs.append(a)
+_slots = {}
+_lock = threading.Lock()
+
+
+def one(d):
+    with _lock:
+        tid = threading.get_ident()
+        if tid not in _slots:
+            _slots[tid] = len(_slots)
+        slot = _slots[tid]
     scratch = tempfile.mkdtemp(prefix="lr-benign-", dir="/var/tmp")
+    lines = []
     try:
         subprocess.check_call(["rsync", "-a", "--exclude", "target", "--exclude", ".git", "/repo/", scratch + "/"])
         r = subprocess.run(["patch", "-p1", "-s", "-f", "-d", scratch, "-i", os.path.join(d, "patch.diff")], capture_output=True, text=True)
         if r.returncode != 0:
-            print(d, "PATCH-DOES-NOT-APPLY")
-            continue
-        env = dict(os.environ, LR_REPO=scratch, LR_TARGET_SLOT="-bn", LR_EVIDENCE_DIR=scratch + "/.ev")
+            lines.append("%s PATCH-DOES-NOT-APPLY" % d)
+            return lines
+        env = dict(os.environ, LR_REPO=scratch, LR_TARGET_SLOT="-bn%d" % slot, LR_EVIDENCE_DIR=scratch + "/.ev")
         alarms = []
         for p in props:
             out = subprocess.run([os.path.join(V, "check"), p], cwd=V, env=env, capture_output=True, text=True).stdout
             for m in re.finditer(r"^  key=(.*)\n  (.*)$", out, re.M):
                 alarms.append((p, m.group(1), m.group(2)[:160]))
-        print(d, "ALARMS:" if alarms else "silent", flush=True)
+        lines.append("%s %s" % (d, "ALARMS:" if alarms else "silent"))
         seen = set()
         for p, k, w in alarms:
             if k in seen:
                 continue
             seen.add(k)
-            print("   ", p, k[:150], "\n        ", w)
+            lines.append("    %s %s \n         %s" % (p, k[:150], w))
     finally:
         shutil.rmtree(scratch, ignore_errors=True)
+    print("\n".join(lines), flush=True)
+    return lines
+
+
+ThreadPool(jobs).map(one, dirs, chunksize=1)
